@@ -188,6 +188,7 @@ class DB:
         self.oob = False           # some write addressed a key outside the modelled key space
         self.err = {}              # kind -> condition under which a statement failed with that error
         self.fresh_n = 0
+        self.fresh_prefix = ''
         self.last_row_count = V(0)
         self.uvars = {}
         self.triggers_enabled = True
@@ -200,6 +201,7 @@ class DB:
         d.oob = self.oob
         d.err = dict(self.err)
         d.fresh_n = self.fresh_n
+        d.fresh_prefix = self.fresh_prefix
         d.uvars = dict(self.uvars)
         d.concrete_env = self.concrete_env
         d.triggers_enabled = self.triggers_enabled
@@ -209,7 +211,16 @@ class DB:
 
     def fresh(self, name):
         self.fresh_n += 1
-        return z3.Int(f'{name}!{self.fresh_n}')
+        return z3.Int(f'{name}!{self.fresh_prefix}{self.fresh_n}')
+
+    def fresh_name(self, name):
+        """concrete mode: the name the symbolic run would have used at this point"""
+        self.fresh_n += 1
+        return f'{name}!{self.fresh_prefix}{self.fresh_n}'
+
+    def begin_op(self, label):
+        self.fresh_prefix = label + '.'
+        self.fresh_n = 0
 
     def add_err(self, kind, cond):
         self.err[kind] = b_or(self.err.get(kind, False), cond)
@@ -470,16 +481,17 @@ class Interp:
                 other = a[3] if a[2] == ('call', 'RAND', [], False) else a[2]
                 n = self.ev(other, fr, sc, group)
                 if db.concrete_env is not None:
-                    return V(db.concrete_env('rand', n.v), n.n)
+                    return V(db.concrete_env(db.fresh_name('rand_token'), n.v), n.n)
                 tok = db.fresh('rand_token')
-                db.env_constraints.append(z3.And(tok >= 0, tok < n.v) if (is_sym(n.v) or True) else True)
+                # (unreached trigger instances leave n at 0: the contract only binds when n > 0)
+                db.env_constraints.append(z3.Or(n.v <= 0, z3.And(tok >= 0, tok < n.v)) if is_sym(n.v) else z3.And(tok >= 0, tok < n.v))
                 return V(tok, n.n)
             return self.ev(a, fr, sc, group)
         if name == 'ROW_COUNT':
             return db.last_row_count
         if name in ('UTC_DATE', 'CURRENT_DATE', 'CURDATE', 'NOW', 'UTC_TIMESTAMP'):
             if db.concrete_env is not None:
-                return V(db.concrete_env('date', None))
+                return V(db.concrete_env(db.fresh_name('utc_date'), None))
             return V(db.fresh('utc_date'))
         if name == 'VALUES':
             col = args[0]
